@@ -687,6 +687,8 @@ def get(name):
 def fit_call(fam, est, spec, op="fit"):
     X, kw = fam.args(spec, spec["train"])
     kw = fam.fit_kwargs(spec, spec["train"])
+    if getattr(fam, "input_method", None) == "generator" and hasattr(est, "generator_n_distributions"):
+        est.generator_n_distributions = fam.n_items(spec["train"])      # the declared count follows the data
     return getattr(est, op)(X, **kw)
 
 
